@@ -17,7 +17,7 @@
 (*   [k |-> "d", v |-> <<field, value>> pairs], [k |-> "u"] (undefined),    *)
 (*   [k |-> "ref", a, env] (a slot's default content, for {{ default }}).   *)
 (*                                                                         *)
-(* Run(P) returns [out, err, zone, insts]:                                  *)
+(* Run(P) returns [out, err, errs, zone, insts]:                                  *)
 (*   out   - the rendered page as a sequence of tokens,                    *)
 (*   err   - "" or the exception class a correct library raises,           *)
 (*   zone  - TRUE if the evaluation touched a construct whose outcome the  *)
@@ -50,11 +50,16 @@ Field(v, f) == IF v.k = "d" /\ HasB(v.v, f) THEN GetB(v.v, f) ELSE Undef
 EvalKw(kw, vars) == [i \in 1..Len(kw) |-> <<kw[i][1], EvalExpr(kw[i][2], vars)>>]
 
 (* ---------------- results ---------------------------------------------- *)
-Res(out, err, zone, insts) == [out |-> out, err |-> err, zone |-> zone, insts |-> insts]
+\* err is the first error in document order; errs collects every error the program contains
+\* (evaluation continues past an error only to collect them): the deferred renderer may hit a
+\* later one first, and the properties do not say which of several errors must surface.
+Res(out, err, zone, insts) == [out |-> out, err |-> err, zone |-> zone, insts |-> insts,
+                               errs |-> IF err = "" THEN {} ELSE {err}]
 Ok(out) == Res(out, "", FALSE, <<>>)
 Fail(e) == Res(<<>>, e, FALSE, <<>>)
 Zone    == Res(<<>>, "", TRUE, <<>>)
-Join(r1, r2) == Res(r1.out \o r2.out, r2.err, r1.zone \/ r2.zone, r1.insts \o r2.insts)
+Join(r1, r2) == [out |-> r1.out \o r2.out, err |-> IF r1.err # "" THEN r1.err ELSE r2.err,
+                 zone |-> r1.zone \/ r2.zone, insts |-> r1.insts \o r2.insts, errs |-> r1.errs \cup r2.errs]
 
 NoOwner == [has |-> FALSE]
 
@@ -189,13 +194,13 @@ RECURSIVE EvalFor(_, _, _, _, _)
 EvalSeq(nodes, i, env, fuel) ==
   IF i > Len(nodes) THEN Ok(<<>>)
   ELSE LET r == EvalNode(nodes[i], [env EXCEPT !.at = Append(@, i)], fuel) IN
-       IF r.err # "" THEN r ELSE Join(r, EvalSeq(nodes, i + 1, env, fuel))
+       IF r.err = "fuel" THEN r ELSE Join(r, EvalSeq(nodes, i + 1, env, fuel))
 
 EvalFor(n, items, j, env, fuel) ==
   IF j > Len(items) THEN Ok(<<>>)
   ELSE LET e2 == [Push(env, ForLayer(n.x, items[j], j)) EXCEPT !.at = Append(@, j)]
            r == EvalSeq(n.a, 1, e2, fuel) IN
-       IF r.err # "" THEN r ELSE Join(r, EvalFor(n, items, j + 1, env, fuel))
+       IF r.err = "fuel" THEN r ELSE Join(r, EvalFor(n, items, j + 1, env, fuel))
 
 IsolatedCall(n, env) == env.P.mode = "isolated" \/ n.only
 
